@@ -88,7 +88,9 @@ def leaf(profile='plain'):
   if profile == 'any_enum':  # 'any' plus members of a nested enum and of a same-named top-level enum
     return st.one_of(leaf('any'), leaf('any'), st.sampled_from([
         {'$sym': 'things:Outer.Mode.FAST'}, {'$sym': 'things:Outer.Mode.SLOW'},
-        {'$sym': 'things:Mode.FAST'}, {'$sym': 'things:Mode.SLOW'}]))
+        {'$sym': 'things:Mode.FAST'}, {'$sym': 'things:Mode.SLOW'},
+        # members of enums with an int / str mix-in
+        {'$sym': 'things:Prec.HALF'}, {'$sym': 'things:Kind.SPARSE'}]))
   if profile == 'nan_free':
     return st.one_of(
         _small_int, st.integers().map(enc), _ident_str, st.text(max_size=6).map(enc),
@@ -108,7 +110,7 @@ def leaf(profile='plain'):
         st.just({'$nv': 1}),
         st.just({'$sym': 'things:CONST_OBJ'}), st.just({'$sym': 'things:f2'}),
         st.just({'$sym': 'things:Base'}), st.just({'$sym': 'things:DICT_OBJ'}),
-        st.just({'$sym': 'things:DICT_OBJ_NEW'}),
+        st.just({'$sym': 'things:DICT_OBJ_NEW'}), st.just({'$sym': 'things:FRAC_3_2'}),
     )
   if profile == 'hashable_ser':  # dict keys / set elements
     return st.one_of(
